@@ -396,7 +396,8 @@ pub fn verif_root() -> PathBuf {
 }
 
 pub fn work_dir(prop: &str) -> PathBuf {
-    let p = verif_root().join("work").join(prop);
+    // the driver names the scratch root (per-stream for sensitivity runs on staged copies); default: <verif>/work
+    let p = std::env::var_os("VERIF_WORK_ROOT").map(PathBuf::from).unwrap_or_else(|| verif_root().join("work")).join(prop);
     let _ = std::fs::create_dir_all(&p);
     p
 }
